@@ -112,7 +112,7 @@ Section Real.
   Proof. induction bs as [|[lo hi] bs IH]; intros acc; simpl; unf; try lra. rewrite IH. lra. Qed.
   Theorem rv_le_extent bs : forall a b, rv_inb bs a -> rv_inb bs b -> rv_distance ReA a b <= extent ReA (RVs bs).
   Proof.
-    intros a b Ha Hb. rewrite rv_distance_eq. cbn [extent]. unf. rewrite rv_sqextent_acc. apply sqrt_le_1_alt.
+    intros a b Ha Hb. rewrite rv_distance_eq. unfold extent. cbn [extent_gen]. unf. rewrite rv_sqextent_acc. apply sqrt_le_1_alt.
     revert a b Ha Hb. induction bs as [|[lo hi] bs IH]; intros [|x a] [|y b] Ha Hb; simpl in *; try tauto; try lra.
     destruct Ha as (Hx & Ha), Hb as (Hy & Hb). specialize (IH a b Ha Hb). assert ((x - y) * (x - y) <= (hi - lo) * (hi - lo)) by nra. lra.
   Qed.
@@ -221,6 +221,45 @@ Section Real.
   Theorem compound_distance_weighted_sum subs xs ys :
     distance ReA (Comps subs) (C ReA xs) (C ReA ys) = csum subs xs ys.
   Proof. exact (distance_comp subs xs ys). Qed.
+
+  (* ---- distance <= getMaximumExtent on every space without an unbounded time component (repaired compound rule) ---- *)
+  Fixpoint bounded_sp (sp : space) : Prop :=
+    match sp with
+    | TimeU _ => False
+    | Comp _ subs => (fix go (ss : list (R * space)) : Prop := match ss with (w, s) :: ss' => bounded_sp s /\ go ss' | [] => True end) subs
+    | _ => True
+    end.
+  Fixpoint cext (ss : list (R * space)) : R :=
+    match ss with (w, s) :: ss' => (if Rltb 0 w then w * extent ReA s else 0) + cext ss' | [] => 0 end.
+  Lemma extent_comp subs : extent ReA (Comps subs) = cext subs.
+  Proof.
+    unfold extent at 1. cbn [extent_gen]. unf.
+    assert (G : forall acc, (fix go (ss : list (R * space)) (acc0 : R) {struct ss} : R :=
+               match ss with
+               | [] => acc0
+               | (w, s) :: ss' => go ss' (if fgt ReA w 0 then acc0 + w * extent_gen ReA (fun w0 : R => fgt ReA w0 0) s else acc0)
+               end) subs acc = acc + cext subs).
+    { induction subs as [|[w s] t IH]; intros acc; [simpl; lra|]. cbn [cext]. rewrite IH. unfold extent, fgt. unf. set (e := extent_gen ReA _ s). destruct (Rltb 0 w); lra. }
+    rewrite G. lra.
+  Qed.
+  Theorem distance_le_extent : forall sp, bounded_sp sp -> forall a b, inb sp a -> inb sp b -> distance ReA sp a b <= extent ReA sp.
+  Proof.
+    induction sp as [bs| |lo hi| |lo hi|subs IH] using space_ind'; intros Hb a b Ha Hbb.
+    - destruct a as [x|]; [|simpl in Ha; tauto]. destruct b as [y|]; [|simpl in Hbb; tauto]. cbn [inb distance] in *. apply rv_le_extent; assumption.
+    - destruct a as [[|x [|? ?]]|]; try (simpl in Ha; tauto). destruct b as [[|y [|? ?]]|]; try (simpl in Hbb; tauto). cbn [inb distance hd0] in *.
+      destruct (so2_dist_facts x y Ha Hbb) as (A & _). unfold extent. cbn [extent_gen]. unf. lra.
+    - destruct a as [[|x [|? ?]]|]; try (simpl in Ha; tauto). destruct b as [[|y [|? ?]]|]; try (simpl in Hbb; tauto). cbn [inb distance hd0] in *.
+      unfold extent. cbn [extent_gen]. unf. unfold Rabs. destruct (Rcase_abs _); lra.
+    - destruct Hb.
+    - destruct a as [[|x [|? ?]]|]; try (simpl in Ha; tauto). destruct b as [[|y [|? ?]]|]; try (simpl in Hbb; tauto). cbn [inb distance hd0] in *.
+      unfold extent. cbn [extent_gen]. unf. unfold Rabs. destruct (Rcase_abs _); lra.
+    - destruct a as [|xs]; [simpl in Ha; tauto|]. destruct b as [|ys]; [simpl in Hbb; tauto|]. rewrite distance_comp, extent_comp. cbn [inb bounded_sp] in Ha, Hbb, Hb.
+      revert xs ys Ha Hbb Hb. induction IH as [|[w s] t Hs _ IHt]; intros xs ys Ha Hbb Hb.
+      + destruct xs, ys; simpl; try tauto; lra.
+      + destruct xs as [|x xs]; [tauto|]. destruct ys as [|y ys]; [tauto|]. destruct Ha as (Hw & Hx & Ha), Hbb as (_ & Hy & Hbb), Hb as (Hbs & Hb). cbn [csum cext snd] in *.
+        specialize (IHt xs ys Ha Hbb Hb). specialize (Hs Hbs x y Hx Hy). destruct (distance_is_metric s x y y Hx Hy Hy) as (Hn & _).
+        destruct (Rltb_spec 0 w) as [L|L]; [nra|]. assert (w = 0) by lra. subst w. lra.
+  Qed.
 
   (* ================= C07: interpolation ================= *)
   Lemma rv_interp_01 a : forall b, length a = length b -> rv_interp ReA a b 0 = a /\ rv_interp ReA a b 1 = b.
